@@ -171,6 +171,15 @@ def check(case):
                                      nb_easy_genuines=case["eg"], nb_easy_frauds=case["ef"])
         require(isinstance(fl, FraudScores) and fl == fs, "fraud:from-labels",
                 f"{ctx}: labels {gl!r}/{fl_!r} with genuine_label={gl!r}")
+    # the library's own label type as labels (object array and plain list)
+    if n + m_:
+        lab = np.asarray([DocLabel.pos] * n + [DocLabel.neg] * m_, dtype=object)
+        for container in (lab[perm], lab[perm].tolist()):
+            fl = FraudScores.from_labels(container, sco[perm], genuine_label=DocLabel.pos, score_class=sc_arg,
+                                         nb_easy_genuines=case["eg"], nb_easy_frauds=case["ef"])
+            require(isinstance(fl, FraudScores) and fl == fs, "fraud:from-labels",
+                    f"{ctx}: DocLabel members as labels ({type(container).__name__}) with genuine_label=DocLabel.pos: "
+                    f"{len(fl.genuines)} genuines, {len(fl.frauds)} frauds")
     # assignment through the setters reaches pos / neg
     fs2 = FraudScores(genuines=g, frauds=f, score_class=sc_arg)
     if n + m_ >= 2 and len(set(map(float, case["g"] + case["f"]))) >= 2:
